@@ -77,6 +77,55 @@ def run(idx: ProgramIndex, rep: Report, tier: str):
     pickling(idx, rep)
     load_hooks(idx, rep)
     init_flags(idx, rep)
+    shadow_buffers(idx, rep)
+
+
+# ---- C18-7 ---------------------------------------------------------------------------------------------------------
+def shadow_buffers(idx: ProgramIndex, rep: Report):
+    """torch loads a state dict by in-place copy_ into the registered buffer.  A buffer that shadows a tensor living elsewhere (the
+    loc/scale of a TransformedDistribution's base_dist) therefore has to BE that tensor: registering a clone leaves the live tensor
+    at its constructor value when the state is loaded through an enclosing module.  A buffer that replaces the attribute (plain
+    distributions) must be registered under the attribute's own name after the attribute was deleted."""
+    from ..symbolic import inline, walk_paths
+    rep.rule("C18-7", "shadow buffers of prior parameters alias the live tensor (no copy), replacing buffers take the attribute's own name")
+    fi = idx.function(idx.package + ".priors.utils", "_bufferize_attributes")
+    mod_p = fi.params[0]
+    n = 0
+    COPYING = ("clone", "detach", "contiguous", "to", "float", "double", "new_tensor", "copy_", "expand", "repeat")
+    for path, seq in walk_paths(fi):
+        deleted: List[str] = []
+        for st, env in seq:
+            if not isinstance(st, ast.stmt):
+                continue
+            for c in (x for x in ast.walk(st) if isinstance(x, ast.Call)):
+                if chain(c.func) == "delattr" and len(c.args) == 2 and src(c.args[0]) == mod_p:
+                    deleted.append(ast.dump(inline(c.args[1], env)))
+                if not (isinstance(c.func, ast.Attribute) and c.func.attr == "register_buffer" and chain(c.func.value) == mod_p and len(c.args) >= 2):
+                    continue
+                name, val = inline(c.args[0], env), inline(c.args[1], env)
+                where = "%s:%d" % (fi.module.relpath, c.lineno)
+                if isinstance(name, ast.JoinedStr):
+                    # f"<prefix>{attr}": a shadow of module.<attr>
+                    fields = [v.value for v in name.values if isinstance(v, ast.FormattedValue)]
+                    inst = "%s:_bufferize_attributes[shadow %s]" % (fi.module.name, "".join(v.value if isinstance(v, ast.Constant) else "{attr}" for v in name.values))
+                    if any(o.rule == "C18-7" and o.instance == inst for o in rep.obligations):
+                        continue
+                    n += 1
+                    alias = isinstance(val, ast.Call) and chain(val.func) == "getattr" and len(val.args) == 2 and src(val.args[0]) == mod_p and len(fields) == 1 and ast.dump(val.args[1]) == ast.dump(fields[0])
+                    copied = [x.func.attr for x in ast.walk(val) if isinstance(x, ast.Call) and isinstance(x.func, ast.Attribute) and x.func.attr in COPYING]
+                    rep.add("C18-7", inst, where, alias,
+                            "the shadow buffer is the live tensor itself: an in-place load reaches the base distribution" if alias else
+                            "the shadow buffer is registered with `%s`%s, not with the live tensor getattr(%s, attr): load_state_dict through an enclosing module fills the buffer but leaves the distribution's own parameter at its constructor value" % (
+                                " ".join(src(val).split())[:60], " (a copy: .%s())" % copied[0] if copied else "", mod_p), {})
+                else:
+                    inst = "%s:_bufferize_attributes[replacing buffer]" % fi.module.name
+                    if any(o.rule == "C18-7" and o.instance == inst for o in rep.obligations):
+                        continue
+                    n += 1
+                    ok = ast.dump(name) in deleted
+                    rep.add("C18-7", inst, where, ok, "the attribute is deleted and re-registered as a buffer under its own name" if ok else
+                            "a buffer is registered under `%s` without the attribute of that name having been deleted first" % src(name)[:40], {})
+    rep.floor("C18-7", "buffer registrations of prior parameters", n, 2)
 
 
 # ---- C18-1 ---------------------------------------------------------------------------------------------------------
